@@ -806,7 +806,7 @@ func runC04(e *Engine, r *Report, tier string) {
 			if F.HasLoop {
 				why = "it loops over several tokens"
 			}
-			r.Fail("R3", F.Key+" release", pos, "releases value from a module account (mint / module->account) but "+why+" and no routine is proved to be its inverse: a second implementation of deposit/refund beside the many-to-one primitives")
+			r.Fail("R3", e.CanonFnKey(F.Fn)+" release", pos, "releases value from a module account (mint / module->account) but "+why+" and no routine is proved to be its inverse: a second implementation of deposit/refund beside the many-to-one primitives")
 			continue
 		}
 		best, bestN := "", -1<<30
